@@ -114,6 +114,31 @@ func checkC12(c *c12Case) (msg string, nontrivial bool, labels []string) {
 			keys = append(keys, k)
 		}
 	}
+	keyInKey := false
+	for _, p := range c.Stmt.Pairs {
+		if p[0].Has(func(x *lib.Node) bool { return x.K == "key" }) {
+			keyInKey = true
+		}
+	}
+	if keyInKey {
+		// the key keyword stands for the evaluated key of its own pair: inside
+		// the key expression of ANY pair it stands for nothing, the statement
+		// is refused before anything is written (spec.md)
+		in := lib.NewInstr(lib.NewStore(c.Pairs))
+		b := lib.Build(q, in, lib.Cfg{Mode: "row", Batch: 32, Cache: true})
+		if b.Panic != "" {
+			return fmt.Sprintf("planning %q panicked: %s", q, b.Panic), true, labels
+		}
+		if b.BuildErr == nil {
+			lib.SetGlobals(lib.Cfg{Mode: "row", Batch: 32, Cache: true})
+			pollPlan(b.Plan, "N")
+			return fmt.Sprintf("statement %q uses the key keyword inside a key expression but is accepted; executing it: storage calls %+v", q, in.Calls()), true, labels
+		}
+		if n := len(in.Calls()); n != 0 {
+			return fmt.Sprintf("statement %q is refused (%v) but only after %d storage calls", q, b.BuildErr, n), true, labels
+		}
+		return "", len(c.Stmt.Pairs) > 1, append(labels, "key-in-put-key")
+	}
 	if unknown {
 		return "", false, []string{"skipped-not-evaluable"}
 	}
@@ -289,6 +314,12 @@ func TestC12(t *testing.T) {
 				} else {
 					st.Pairs[i][1] = f
 				}
+			}
+			if rapid.IntRange(0, 9).Draw(rt, "keyInKey") == 0 {
+				// the key keyword inside the key expression of one of the pairs
+				i := rapid.IntRange(0, len(st.Pairs)-1).Draw(rt, "keyInKeyPos")
+				forms := []*lib.Node{lib.Key(), lib.Call("upper", lib.Key()), lib.Bin("+", lib.Key(), lib.Str("b")), lib.Bin("+", lib.Str("k"), lib.Call("lower", lib.Key()))}
+				st.Pairs[i][0] = rapid.SampledFrom(forms).Draw(rt, "keyInKeyForm")
 			}
 			if rapid.IntRange(0, 5).Draw(rt, "jsonMember") == 0 {
 				i := rapid.IntRange(0, len(st.Pairs)-1).Draw(rt, "jsonPos")
